@@ -90,11 +90,15 @@ def run(ctx):
     thorough = ctx.tier == 'thorough'
     const3 = {'NR': 3, 'NC': 3, 'NanPairs': {(2, 1, 3)}}
     total = 0
-    runs = [(3, 3, 'GensSimple', 2), (3, 3, 'GensNested', 1), (3, 3, 'GensRandom', 1)]
+    # (NR, NC, generators, PermLevel, KMax); 5 groups with k = 3 is the smallest split with a remainder of 2,
+    # the only place where the "remainder taken from the end" rule is visible
+    runs = [(3, 3, 'GensSimple', 2, 9), (3, 3, 'GensNested', 1, 9), (3, 3, 'GensRandom', 1, 9),
+            (5, 5, 'GensSimple', 0, 9), (5, 3, 'GensNested', 0, 3), (3, 5, 'GensNested', 0, 3)]
     if thorough:
-        runs += [(3, 4, 'GensSimple', 2), (3, 3, 'GensNested', 2), (4, 4, 'GensNested', 1), (3, 4, 'GensRandom', 1)]
-    for nr, nc, gens, pl in runs:
-        r = ctx.tlc('MC_CvSets', cfg(nr, nc, gens, pl), name=f'cv_{nr}{nc}_{gens}_{pl}', timeout=3000, workers=16)
+        runs += [(3, 4, 'GensSimple', 2, 9), (3, 3, 'GensNested', 2, 9), (4, 4, 'GensNested', 1, 9),
+                 (3, 4, 'GensRandom', 1, 9), (5, 5, 'GensSimple', 1, 9), (5, 5, 'GensNested', 0, 3)]
+    for nr, nc, gens, pl, kmax in runs:
+        r = ctx.tlc('MC_CvSets', cfg(nr, nc, gens, pl, kmax=kmax), name=f'cv_{nr}{nc}_{gens}_{pl}', timeout=3000, workers=16)
         if not r.n_emitted:
             raise MachineryError('TLC emitted no cases')
         first = next(r.iter_emitted())
